@@ -269,6 +269,20 @@ def check_lexcmp(v, n):
         return UNDECIDED, "ordering summary not recognised: %r" % (v,)
     la, lb = v.data
     T = table_words(n)
+    # words wider than a block (two blocks widened into a u128, say): the lexicographic order of wide unsigned words is
+    # the lexicographic order of their 64-bit pieces, most significant first - judge the comparison on the pieces
+    if len(la) == len(lb) and any(isinstance(w, W) and w.width > 64 for w in list(la) + list(lb)):
+        if not all(isinstance(x, W) and isinstance(y, W) and x.width == y.width and x.width % 64 == 0 for x, y in zip(la, lb)):
+            return UNDECIDED, "ordering compares words of unequal or odd widths"
+
+        def pieces(seq):
+            out = []
+            for w in seq:
+                bs = w.all_bits()
+                for k in reversed(range(w.width // 64)):
+                    out.append(W(64, bits=bs[64 * k:64 * k + 64]))
+            return out
+        la, lb = pieces(la), pieces(lb)
     if len(la) != T or len(lb) != T:
         return REFUTED, "ordering compares %d/%d of %d words" % (len(la), len(lb), T)
     ea = [w.all_bits() for w in reversed(sym_words(n, "a"))]
